@@ -99,6 +99,9 @@ def part_from_map(chk, ex):
     shapes = [
         ('string+u32', {'x': ('one', sx), 'y': ('one', ny)}, Ty('struct', [('x', Ty('string')), ('y', Ty('u32'))])),
         ('swapped-decl-order', {'x': ('one', sx), 'y': ('one', ny)}, Ty('struct', [('y', Ty('i64')), ('x', Ty('string'))])),
+        ('u64', {'y': ('one', ny)}, Ty('struct', [('y', Ty('u64'))])),
+        ('i8', {'y': ('one', ny)}, Ty('struct', [('y', Ty('i8'))])),
+        ('u16+i32', {'y': ('one', ny), 'x': ('one', ny)}, Ty('struct', [('x', Ty('u16')), ('y', Ty('i32'))])),
         ('wildcard', {'r': ('many', [s1, s2]), 'x': ('one', sx)}, Ty('struct', [('x', Ty('string')), ('r', Ty('seq', Ty('string')))])),
         ('empty-wildcard', {'r': ('many', [])}, Ty('struct', [('r', Ty('seq', Ty('string')))])),
         ('option', {'x': ('one', sx)}, Ty('struct', [('x', Ty('option', Ty('string')))])),
@@ -128,12 +131,14 @@ def part_from_map(chk, ex):
             mismatch_shape = name in ('scalar-for-wildcard', 'seq-for-single')
             if r.discr == 1:
                 # refusals: only a type mismatch (numeric field not numeric / out of range, sequence vs single value)
-                if name in ('string+u32', 'swapped-decl-order'):
-                    lo, hi = c10.INT_RANGE['u32' if name == 'string+u32' else 'i64']
+                ints = [fty.kind for _, fty in ty.arg if fty.kind in c10.INT_RANGE]
+                if ints and not mismatch_shape:
+                    lo, hi = max(c10.INT_RANGE[t][0] for t in ints), min(c10.INT_RANGE[t][1] for t in ints)
                     m = chk.prove(f'from_map/{name}/refused-only-for-ill-typed-value', pc, z3.And(ny.numeric, ny.val >= lo, ny.val <= hi))
                 else:
                     m = chk.prove(f'from_map/{name}/refused-only-for-shape-mismatch', pc, z3.BoolVal(not mismatch_shape))
-                if m is not None: chk.mismatches.append(f'from_map refuses well-typed variables ({name}): {r}')
+                if m is not None and name in c10.SCALAR_SLOT: c10.report_scalar(chk, m, name, ny, f'from_map refuses an in-range {name} path variable')
+                elif m is not None: chk.mismatches.append(f'from_map refuses well-typed variables ({name}): {r}')
                 continue
             n_ok += 1
             got = ex.payload(r).payload if isinstance(ex.payload(r), Opaque) and ex.payload(r).tag == 'decoded-struct' else None
@@ -152,7 +157,8 @@ def part_from_map(chk, ex):
                         ok_shape = isinstance(g, Opaque) and g.tag == 'visited' and g.payload[0] == fty.kind and z3.is_bv(g.payload[1])
                         bad.append(z3.BoolVal(True) if not ok_shape else g.payload[1] != z3.Int2BV(ny.val, bits))
             m = chk.prove(f'from_map/{name}/each-field-from-its-own-variable', pc, z3.Or(bad))
-            if m is not None: chk.mismatches.append(f'from_map ({name}) decoded {got} from {variables}')
+            if m is not None and name in c10.SCALAR_SLOT: c10.report_scalar(chk, m, name, ny, f'from_map delivered {got} for a {name} path variable')
+            elif m is not None: chk.mismatches.append(f'from_map ({name}) decoded {got} from {variables}')
         if not n_ok and name not in ('scalar-for-wildcard', 'seq-for-single'): raise Inconclusive(f'vacuity: from_map never succeeds on {name}; {ex.unsupported_paths[-1:]}')
 
 
